@@ -438,7 +438,11 @@ func oracle(c kase, res implResult, rep *hx.Report) {
 			if i < len(c.Args) {
 				want, ok := expectArg(c.Args[i], k, c.ConvFmt)
 				if ok && want != got[i] {
-					fail("arg:"+k+":"+valClass(c.Args[i]), "argument converted by the documented rule (truncate / truth value / string form)", want, got[i])
+					ck := k // int and uint are the 64-bit kinds on the pinned platform: one class with int64/uint64
+					if ck == "i" || ck == "u" {
+						ck += "64"
+					}
+					fail("arg:"+ck+":"+valClass(c.Args[i]), "argument converted by the documented rule (truncate / truth value / string form)", want, got[i])
 				}
 			} else if want := zeroOf(k); want != got[i] {
 				fail("missing:"+k, "missing arguments are zero values", want, got[i])
